@@ -3,6 +3,7 @@
 //!   harness gen <Cxx> <quick|thorough> <seed> <cases-out>
 //!   harness run <cases-in> <answers-out> [threads]
 mod cases;
+mod fibex;
 mod gen;
 mod ops;
 mod reader;
